@@ -8,7 +8,7 @@ use crate::rng::Rng;
 const IDENT_LIKE: &[&str] = &[
     "x", "X", "foo", "Tom", "Sawyer", "élan", "Ünï", "жук", "日本", "λx", "abc1", "a1b", "1abc", "x_y",
     "_x", "x_", "a_1", "ab12cd", "q9", "don't", "rock'n'roll", "it's", "they're", "x's", "Y're", "o'",
-    "'bout", "n", "s", "re",
+    "'bout", "n", "s", "re", "K's", "İ're", "ẞ's", "Ω's", "K'", "aKa's", "Éa", "ÉLAN's", "é's",
 ];
 const NUMBERS: &[&str] = &[
     "0", "1", "5", "42", "3.14", ".5", "5.", "1e3", "1E3", "1e", "1.2.3", "00", "0x10", "1e999", "٣", "½",
